@@ -155,3 +155,588 @@ impl World {
         self.send(&[ix], &[keeper])
     }
 }
+
+// ------------------------------------------------------------------------------------------------
+// Close deposit / withdrawals
+
+use gmsol_store::{
+    ops::{order::CreateOrderParams, withdrawal::CreateWithdrawalParams},
+    states::{common::action::Action, Deposit, Order, Position, Withdrawal},
+};
+pub use gmsol_utils::order::OrderKind;
+
+fn harness_err(msg: &str) -> (TxError, TxMeta) {
+    (TxError::Runtime(format!("harness: {msg}")), TxMeta::default())
+}
+
+impl World {
+    pub fn store_wallet(&self) -> Pubkey {
+        pda::find_store_wallet_address(&self.store, &STORE_PID).0
+    }
+
+    pub fn close_deposit_ix(&self, executor: Pubkey, deposit: Pubkey) -> Option<Instruction> {
+        let d: Deposit = load(&self.svm, &deposit)?;
+        let owner = *d.header().owner();
+        let receiver = d.header().receiver();
+        let t = d.tokens();
+        let market_token = t.market_token();
+        let lt = t.initial_long_token.token();
+        let st = t.initial_short_token.token();
+        Some(six(
+            sa::CloseDeposit {
+                executor,
+                store: self.store,
+                store_wallet: self.store_wallet(),
+                owner,
+                receiver,
+                market_token,
+                initial_long_token: lt,
+                initial_short_token: st,
+                deposit,
+                market_token_escrow: token::ata(&deposit, &market_token),
+                initial_long_token_escrow: lt.map(|t| token::ata(&deposit, &t)),
+                initial_short_token_escrow: st.map(|t| token::ata(&deposit, &t)),
+                market_token_ata: token::ata(&receiver, &market_token),
+                initial_long_token_ata: lt.map(|t| token::ata(&owner, &t)),
+                initial_short_token_ata: st.map(|t| token::ata(&owner, &t)),
+                associated_token_program: associated_token::ID,
+                token_program: spl_token::ID,
+                system_program: system_program::ID,
+                event_authority: self.event_authority(),
+                program: STORE_PID,
+            },
+            si::CloseDeposit { reason: "test".into() },
+        ))
+    }
+
+    pub fn close_deposit(&mut self, executor: Pubkey, deposit: Pubkey) -> TxResult {
+        let Some(ix) = self.close_deposit_ix(executor, deposit) else {
+            return Err(harness_err("deposit not found"));
+        };
+        self.send(&[ix], &[executor])
+    }
+
+    pub fn create_withdrawal(
+        &mut self,
+        owner: Pubkey,
+        market: usize,
+        amount: u64,
+        final_long_token: Option<Pubkey>,
+        final_short_token: Option<Pubkey>,
+        long_swap_path: &[Pubkey],
+        short_swap_path: &[Pubkey],
+        min_long: u64,
+        min_short: u64,
+    ) -> std::result::Result<Pubkey, (TxError, TxMeta)> {
+        let m = self.markets[market].clone();
+        let store = self.store;
+        let nonce = self.next_nonce();
+        let withdrawal = pda::find_withdrawal_address(&store, &owner, &nonce, &STORE_PID).0;
+        let lt = final_long_token.unwrap_or(self.tokens[m.long].mint);
+        let st = final_short_token.unwrap_or(self.tokens[m.short].mint);
+        let mut ixs = vec![self.prepare_ata_ix(owner, withdrawal, m.market_token)];
+        for t in [lt, st] {
+            ixs.push(self.prepare_ata_ix(owner, withdrawal, t));
+            ixs.push(self.prepare_ata_ix(owner, owner, t));
+        }
+        let mut create = six(
+            sa::CreateWithdrawal {
+                owner,
+                receiver: owner,
+                store,
+                market: m.market,
+                withdrawal,
+                market_token: m.market_token,
+                final_long_token: lt,
+                final_short_token: st,
+                market_token_escrow: token::ata(&withdrawal, &m.market_token),
+                final_long_token_escrow: token::ata(&withdrawal, &lt),
+                final_short_token_escrow: token::ata(&withdrawal, &st),
+                market_token_source: token::ata(&owner, &m.market_token),
+                system_program: system_program::ID,
+                token_program: spl_token::ID,
+                associated_token_program: associated_token::ID,
+            },
+            si::CreateWithdrawal {
+                nonce,
+                params: CreateWithdrawalParams {
+                    execution_lamports: EXECUTION_FEE,
+                    long_token_swap_path_length: long_swap_path.len() as u8,
+                    short_token_swap_path_length: short_swap_path.len() as u8,
+                    market_token_amount: amount,
+                    min_long_token_amount: min_long,
+                    min_short_token_amount: min_short,
+                    should_unwrap_native_token: false,
+                },
+            },
+        );
+        let mut path = long_swap_path.to_vec();
+        path.extend_from_slice(short_swap_path);
+        let mut metas = self.market_metas(&path, false);
+        metas.iter_mut().for_each(|m| m.is_writable = false);
+        create.accounts.extend(metas);
+        ixs.push(create);
+        self.send(&ixs, &[owner]).map(|_| withdrawal)
+    }
+
+    pub fn execute_withdrawal_ix(&self, executor: Pubkey, withdrawal: Pubkey, throw_on_execution_error: bool) -> Option<Instruction> {
+        let w: Withdrawal = load(&self.svm, &withdrawal)?;
+        let t = w.tokens();
+        let market_token = t.market_token();
+        let lt = t.final_long_token();
+        let st = t.final_short_token();
+        let mut ix = six(
+            sa::ExecuteWithdrawal {
+                authority: executor,
+                store: self.store,
+                token_map: self.token_map,
+                oracle: self.oracle,
+                market: pda::find_market_address(&self.store, &market_token, &STORE_PID).0,
+                withdrawal,
+                market_token,
+                final_long_token: lt,
+                final_short_token: st,
+                market_token_escrow: token::ata(&withdrawal, &market_token),
+                final_long_token_escrow: token::ata(&withdrawal, &lt),
+                final_short_token_escrow: token::ata(&withdrawal, &st),
+                market_token_vault: self.vault(&market_token),
+                final_long_token_vault: self.vault(&lt),
+                final_short_token_vault: self.vault(&st),
+                token_program: spl_token::ID,
+                system_program: system_program::ID,
+                chainlink_program: None,
+                event_authority: self.event_authority(),
+                program: STORE_PID,
+            },
+            si::ExecuteWithdrawal { execution_fee: EXECUTION_FEE, throw_on_execution_error },
+        );
+        ix.accounts.extend(self.feed_metas(w.swap().tokens()));
+        let others: Vec<Pubkey> = w.swap().unique_market_tokens_excluding_current(&market_token).copied().collect();
+        ix.accounts.extend(self.market_metas(&others, false));
+        Some(ix)
+    }
+
+    pub fn execute_withdrawal(&mut self, withdrawal: Pubkey, throw_on_execution_error: bool) -> TxResult {
+        let keeper = self.keeper;
+        let Some(ix) = self.execute_withdrawal_ix(keeper, withdrawal, throw_on_execution_error) else {
+            return Err(harness_err("withdrawal not found"));
+        };
+        self.send(&[ix], &[keeper])
+    }
+
+    pub fn close_withdrawal_ix(&self, executor: Pubkey, withdrawal: Pubkey) -> Option<Instruction> {
+        let w: Withdrawal = load(&self.svm, &withdrawal)?;
+        let owner = *w.header().owner();
+        let receiver = w.header().receiver();
+        let t = w.tokens();
+        let market_token = t.market_token();
+        let lt = t.final_long_token();
+        let st = t.final_short_token();
+        Some(six(
+            sa::CloseWithdrawal {
+                executor,
+                store: self.store,
+                store_wallet: self.store_wallet(),
+                owner,
+                receiver,
+                market_token,
+                final_long_token: lt,
+                final_short_token: st,
+                withdrawal,
+                market_token_escrow: token::ata(&withdrawal, &market_token),
+                final_long_token_escrow: token::ata(&withdrawal, &lt),
+                final_short_token_escrow: token::ata(&withdrawal, &st),
+                market_token_ata: token::ata(&owner, &market_token),
+                final_long_token_ata: token::ata(&receiver, &lt),
+                final_short_token_ata: token::ata(&receiver, &st),
+                associated_token_program: associated_token::ID,
+                token_program: spl_token::ID,
+                system_program: system_program::ID,
+                event_authority: self.event_authority(),
+                program: STORE_PID,
+            },
+            si::CloseWithdrawal { reason: "test".into() },
+        ))
+    }
+
+    pub fn close_withdrawal(&mut self, executor: Pubkey, withdrawal: Pubkey) -> TxResult {
+        let Some(ix) = self.close_withdrawal_ix(executor, withdrawal) else {
+            return Err(harness_err("withdrawal not found"));
+        };
+        self.send(&[ix], &[executor])
+    }
+}
+
+// ------------------------------------------------------------------------------------------------
+// Orders
+
+#[derive(Clone, Debug)]
+pub struct OrderReq {
+    pub kind: OrderKind,
+    pub market: usize,
+    pub is_long: bool,
+    /// Collateral token (position orders) or output token (swap orders) is the market's long token.
+    pub is_collateral_long: bool,
+    /// Pay-in token (increase / swap); defaults to the collateral token.
+    pub initial_collateral_token: Option<Pubkey>,
+    pub initial_collateral_delta_amount: u64,
+    pub size_delta_value: u128,
+    pub swap_path: Vec<Pubkey>,
+    pub min_output: u128,
+    pub trigger_price: Option<u128>,
+    pub acceptable_price: Option<u128>,
+    /// Decrease: final output token (defaults to the collateral token).
+    pub final_output_token: Option<Pubkey>,
+    pub valid_from_ts: Option<i64>,
+}
+
+impl OrderReq {
+    pub fn new(kind: OrderKind, market: usize, is_long: bool, is_collateral_long: bool) -> Self {
+        Self {
+            kind,
+            market,
+            is_long,
+            is_collateral_long,
+            initial_collateral_token: None,
+            initial_collateral_delta_amount: 0,
+            size_delta_value: 0,
+            swap_path: vec![],
+            min_output: 0,
+            trigger_price: None,
+            acceptable_price: None,
+            final_output_token: None,
+            valid_from_ts: None,
+        }
+    }
+}
+
+impl World {
+    pub fn user_pda(&self, owner: &Pubkey) -> Pubkey {
+        pda::find_user_address(&self.store, owner, &STORE_PID).0
+    }
+
+    pub fn position_pda(&self, owner: &Pubkey, market: usize, is_long: bool, is_collateral_long: bool) -> Pubkey {
+        let m = &self.markets[market];
+        let collateral = if is_collateral_long { self.tokens[m.long].mint } else { self.tokens[m.short].mint };
+        pda::find_position_address(&self.store, owner, &m.market_token, &collateral, is_long, &STORE_PID).0
+    }
+
+    pub fn prepare_user_ix(&self, owner: Pubkey) -> Instruction {
+        six(
+            sa::PrepareUser { owner, store: self.store, user: self.user_pda(&owner), system_program: system_program::ID },
+            si::PrepareUser {},
+        )
+    }
+
+    pub fn order_params(&self, req: &OrderReq) -> CreateOrderParams {
+        CreateOrderParams {
+            kind: req.kind,
+            decrease_position_swap_type: None,
+            execution_lamports: EXECUTION_FEE,
+            swap_path_length: req.swap_path.len() as u8,
+            initial_collateral_delta_amount: req.initial_collateral_delta_amount,
+            size_delta_value: req.size_delta_value,
+            is_long: req.is_long,
+            is_collateral_long: req.is_collateral_long,
+            min_output: Some(req.min_output),
+            trigger_price: req.trigger_price,
+            acceptable_price: req.acceptable_price,
+            should_unwrap_native_token: false,
+            valid_from_ts: req.valid_from_ts,
+        }
+    }
+
+    /// `create_order_v2` (+ the preparation instructions); returns the order address.
+    pub fn create_order(&mut self, owner: Pubkey, req: &OrderReq) -> std::result::Result<Pubkey, (TxError, TxMeta)> {
+        let m = self.markets[req.market].clone();
+        let store = self.store;
+        let nonce = self.next_nonce();
+        let order = pda::find_order_address(&store, &owner, &nonce, &STORE_PID).0;
+        let (long_mint, short_mint) = (self.tokens[m.long].mint, self.tokens[m.short].mint);
+        let collateral = if req.is_collateral_long { long_mint } else { short_mint };
+        let is_swap = matches!(req.kind, OrderKind::MarketSwap | OrderKind::LimitSwap);
+        let is_increase = matches!(req.kind, OrderKind::MarketIncrease | OrderKind::LimitIncrease);
+        let is_decrease = matches!(req.kind, OrderKind::MarketDecrease | OrderKind::LimitDecrease | OrderKind::StopLossDecrease);
+        let params = self.order_params(req);
+        let initial_collateral_token = if is_swap || is_increase { Some(req.initial_collateral_token.unwrap_or(collateral)) } else { None };
+        let final_output_token = if is_decrease {
+            Some(req.final_output_token.unwrap_or(collateral))
+        } else if is_swap {
+            Some(collateral)
+        } else {
+            None
+        };
+        let (long_token, short_token) = if is_swap { (None, None) } else { (Some(long_mint), Some(short_mint)) };
+        let position = (!is_swap).then(|| self.position_pda(&owner, req.market, req.is_long, req.is_collateral_long));
+        let mut ixs = vec![self.prepare_user_ix(owner)];
+        let mut escrow_tokens: Vec<Pubkey> = vec![];
+        for t in initial_collateral_token.iter().chain(final_output_token.iter()).chain(long_token.iter()).chain(short_token.iter()) {
+            if !escrow_tokens.contains(t) {
+                escrow_tokens.push(*t);
+            }
+        }
+        for t in &escrow_tokens {
+            ixs.push(self.prepare_ata_ix(owner, order, *t));
+        }
+        for t in final_output_token.iter().chain(long_token.iter()).chain(short_token.iter()) {
+            ixs.push(self.prepare_ata_ix(owner, owner, *t));
+        }
+        if is_increase {
+            ixs.push(six(
+                sa::PreparePosition {
+                    owner,
+                    store,
+                    market: m.market,
+                    position: position.unwrap(),
+                    system_program: system_program::ID,
+                },
+                si::PreparePosition { params: params.clone() },
+            ));
+        }
+        let mut create = six(
+            sa::CreateOrderV2 {
+                owner,
+                receiver: owner,
+                store,
+                market: m.market,
+                user: self.user_pda(&owner),
+                order,
+                position,
+                initial_collateral_token,
+                final_output_token: final_output_token.unwrap_or(collateral),
+                long_token,
+                short_token,
+                initial_collateral_token_escrow: initial_collateral_token.map(|t| token::ata(&order, &t)),
+                final_output_token_escrow: final_output_token.map(|t| token::ata(&order, &t)),
+                long_token_escrow: long_token.map(|t| token::ata(&order, &t)),
+                short_token_escrow: short_token.map(|t| token::ata(&order, &t)),
+                initial_collateral_token_source: initial_collateral_token.map(|t| token::ata(&owner, &t)),
+                system_program: system_program::ID,
+                token_program: spl_token::ID,
+                associated_token_program: associated_token::ID,
+                callback_authority: None,
+                callback_program: None,
+                callback_shared_data_account: None,
+                callback_partitioned_data_account: None,
+                event_authority: self.event_authority(),
+                program: STORE_PID,
+            },
+            si::CreateOrderV2 { nonce, params, callback_version: None },
+        );
+        let mut metas = self.market_metas(&req.swap_path, false);
+        metas.iter_mut().for_each(|m| m.is_writable = false);
+        create.accounts.extend(metas);
+        ixs.push(create);
+        self.send(&ixs, &[owner]).map(|_| order)
+    }
+
+    pub fn claimable_pda(&self, mint: &Pubkey, user: &Pubkey, ts: i64) -> Pubkey {
+        let store: gmsol_store::states::Store = load(&self.svm, &self.store).expect("store");
+        let key = store.claimable_time_key(ts).expect("time key");
+        pda::find_claimable_account_address(&self.store, mint, user, &key, &STORE_PID).0
+    }
+
+    pub fn holding(&self) -> Pubkey {
+        let store: gmsol_store::states::Store = load(&self.svm, &self.store).expect("store");
+        *store.holding()
+    }
+
+    pub fn event_buffer(&self, authority: &Pubkey, index: u16) -> Pubkey {
+        pda::find_trade_event_buffer_address(&self.store, authority, index, &STORE_PID).0
+    }
+
+    pub fn prepare_event_buffer_ix(&self, authority: Pubkey, index: u16) -> Instruction {
+        six(
+            sa::PrepareTradeEventBuffer {
+                authority,
+                store: self.store,
+                event: self.event_buffer(&authority, index),
+                system_program: system_program::ID,
+            },
+            si::PrepareTradeEventBuffer { index },
+        )
+    }
+
+    pub fn use_claimable_ix(&self, authority: Pubkey, mint: Pubkey, owner: Pubkey, ts: i64, amount: u64) -> Instruction {
+        six(
+            sa::UseClaimableAccount {
+                authority,
+                store: self.store,
+                mint,
+                owner,
+                account: self.claimable_pda(&mint, &owner, ts),
+                system_program: system_program::ID,
+                token_program: spl_token::ID,
+            },
+            si::UseClaimableAccount { timestamp: ts, amount },
+        )
+    }
+
+    /// Instructions executing an order (event buffer / claimable preparation included).
+    pub fn execute_order_ixs(&self, executor: Pubkey, order: Pubkey, throw_on_execution_error: bool) -> Option<Vec<Instruction>> {
+        let o: Order = load(&self.svm, &order)?;
+        let kind = o.params().kind().ok()?;
+        let owner = *o.header().owner();
+        let market_token = *o.market_token();
+        let market = pda::find_market_address(&self.store, &market_token, &STORE_PID).0;
+        let t = o.tokens();
+        let ts = self.svm.clock.unix_timestamp;
+        let is_swap = matches!(kind, OrderKind::MarketSwap | OrderKind::LimitSwap);
+        let is_decrease = matches!(kind, OrderKind::MarketDecrease | OrderKind::LimitDecrease | OrderKind::StopLossDecrease);
+        let mut ixs = vec![];
+        let event = self.event_buffer(&executor, 0);
+        if !is_swap {
+            ixs.push(self.prepare_event_buffer_ix(executor, 0));
+        }
+        let position = o.params().position().copied();
+        let mut exec = if is_decrease {
+            let mi = self.markets.iter().find(|m| m.market_token == market_token)?;
+            let (long_mint, short_mint) = (self.tokens[mi.long].mint, self.tokens[mi.short].mint);
+            let pos: Position = load(&self.svm, &position?)?;
+            let is_long = pos.try_is_long().ok()?;
+            let pnl_token = if is_long { long_mint } else { short_mint };
+            let holding = self.holding();
+            ixs.push(self.use_claimable_ix(executor, long_mint, owner, ts, 0));
+            ixs.push(self.use_claimable_ix(executor, short_mint, owner, ts, 0));
+            ixs.push(self.use_claimable_ix(executor, pnl_token, holding, ts, 0));
+            six(
+                sa::ExecuteDecreaseOrderV2 {
+                    authority: executor,
+                    owner,
+                    user: self.user_pda(&owner),
+                    store: self.store,
+                    token_map: self.token_map,
+                    oracle: self.oracle,
+                    market,
+                    order,
+                    position: position?,
+                    event,
+                    final_output_token: t.final_output_token().token()?,
+                    long_token: t.long_token().token()?,
+                    short_token: t.short_token().token()?,
+                    final_output_token_escrow: t.final_output_token().account()?,
+                    long_token_escrow: t.long_token().account()?,
+                    short_token_escrow: t.short_token().account()?,
+                    final_output_token_vault: self.vault(&t.final_output_token().token()?),
+                    long_token_vault: self.vault(&long_mint),
+                    short_token_vault: self.vault(&short_mint),
+                    claimable_long_token_account_for_user: self.claimable_pda(&long_mint, &owner, ts),
+                    claimable_short_token_account_for_user: self.claimable_pda(&short_mint, &owner, ts),
+                    claimable_pnl_token_account_for_holding: self.claimable_pda(&pnl_token, &holding, ts),
+                    token_program: spl_token::ID,
+                    system_program: system_program::ID,
+                    callback_authority: None,
+                    callback_program: None,
+                    callback_shared_data_account: None,
+                    callback_partitioned_data_account: None,
+                    event_authority: self.event_authority(),
+                    program: STORE_PID,
+                },
+                si::ExecuteDecreaseOrderV2 { recent_timestamp: ts, execution_fee: EXECUTION_FEE, throw_on_execution_error },
+            )
+        } else {
+            six(
+                sa::ExecuteIncreaseOrSwapOrderV2 {
+                    authority: executor,
+                    owner,
+                    user: self.user_pda(&owner),
+                    store: self.store,
+                    token_map: self.token_map,
+                    oracle: self.oracle,
+                    market,
+                    order,
+                    position,
+                    event: (!is_swap).then_some(event),
+                    initial_collateral_token: t.initial_collateral().token(),
+                    final_output_token: t.final_output_token().token(),
+                    long_token: t.long_token().token(),
+                    short_token: t.short_token().token(),
+                    initial_collateral_token_escrow: t.initial_collateral().account(),
+                    final_output_token_escrow: t.final_output_token().account(),
+                    long_token_escrow: t.long_token().account(),
+                    short_token_escrow: t.short_token().account(),
+                    initial_collateral_token_vault: t.initial_collateral().token().map(|x| self.vault(&x)),
+                    final_output_token_vault: t.final_output_token().token().map(|x| self.vault(&x)),
+                    long_token_vault: t.long_token().token().map(|x| self.vault(&x)),
+                    short_token_vault: t.short_token().token().map(|x| self.vault(&x)),
+                    token_program: spl_token::ID,
+                    system_program: system_program::ID,
+                    callback_authority: None,
+                    callback_program: None,
+                    callback_shared_data_account: None,
+                    callback_partitioned_data_account: None,
+                    event_authority: self.event_authority(),
+                    program: STORE_PID,
+                },
+                si::ExecuteIncreaseOrSwapOrderV2 { recent_timestamp: ts, execution_fee: EXECUTION_FEE, throw_on_execution_error },
+            )
+        };
+        exec.accounts.extend(self.feed_metas(o.swap().tokens()));
+        let others: Vec<Pubkey> = o.swap().unique_market_tokens_excluding_current(&market_token).copied().collect();
+        exec.accounts.extend(self.market_metas(&others, false));
+        ixs.push(exec);
+        Some(ixs)
+    }
+
+    pub fn execute_order(&mut self, order: Pubkey, throw_on_execution_error: bool) -> TxResult {
+        let keeper = self.keeper;
+        let Some(ixs) = self.execute_order_ixs(keeper, order, throw_on_execution_error) else {
+            return Err(harness_err("order not found / not decodable"));
+        };
+        self.send(&ixs, &[keeper])
+    }
+
+    pub fn close_order_ix(&self, executor: Pubkey, order: Pubkey) -> Option<Instruction> {
+        let o: Order = load(&self.svm, &order)?;
+        let owner = *o.header().owner();
+        let receiver = o.header().receiver();
+        let rent_receiver = *o.header().rent_receiver();
+        let t = o.tokens();
+        let user = self.user_pda(&owner);
+        let referrer_user = load::<gmsol_store::states::UserHeader>(&self.svm, &user)
+            .and_then(|u| u.referral().referrer().copied())
+            .map(|r| self.user_pda(&r));
+        Some(six(
+            sa::CloseOrderV2 {
+                executor,
+                store: self.store,
+                store_wallet: self.store_wallet(),
+                owner,
+                receiver,
+                rent_receiver,
+                user,
+                referrer_user,
+                order,
+                initial_collateral_token: t.initial_collateral().token(),
+                final_output_token: t.final_output_token().token(),
+                long_token: t.long_token().token(),
+                short_token: t.short_token().token(),
+                initial_collateral_token_escrow: t.initial_collateral().account(),
+                final_output_token_escrow: t.final_output_token().account(),
+                long_token_escrow: t.long_token().account(),
+                short_token_escrow: t.short_token().account(),
+                initial_collateral_token_ata: t.initial_collateral().token().map(|x| token::ata(&owner, &x)),
+                final_output_token_ata: t.final_output_token().token().map(|x| token::ata(&receiver, &x)),
+                long_token_ata: t.long_token().token().map(|x| token::ata(&receiver, &x)),
+                short_token_ata: t.short_token().token().map(|x| token::ata(&receiver, &x)),
+                associated_token_program: associated_token::ID,
+                token_program: spl_token::ID,
+                system_program: system_program::ID,
+                callback_authority: None,
+                callback_program: None,
+                callback_shared_data_account: None,
+                callback_partitioned_data_account: None,
+                event_authority: self.event_authority(),
+                program: STORE_PID,
+            },
+            si::CloseOrderV2 { reason: "test".into() },
+        ))
+    }
+
+    pub fn close_order(&mut self, executor: Pubkey, order: Pubkey) -> TxResult {
+        let Some(ix) = self.close_order_ix(executor, order) else {
+            return Err(harness_err("order not found"));
+        };
+        self.send(&[ix], &[executor])
+    }
+}
